@@ -641,7 +641,7 @@ func ufsHistFrames(c *Case) [][]byte {
 // TestPropUfs: one drawn disconnect per Ufs session with many opened files
 // and directories.
 func TestPropUfs(t *testing.T) {
-	hx.Check(t, "ufs", hx.N(60, 800), func(t *rapid.T) {
+	hx.Check(t, "ufs", hx.N(35, 800), func(t *rapid.T) {
 		c := genUfsCase(t, 8, false)
 		c.Cut = drawCut(t, ufsHistFrames(c))
 		if err := execute("ufs", c); err != nil {
